@@ -443,6 +443,29 @@ impl<'data> MergedStringsSection<'data> {
             try_spawn_input_processing(&resources, s);
         });
 
+        #[cfg(wild_verif)]
+        {
+            simrt::event(
+                "sm_section_done",
+                resources.num_input_groups as u64,
+                resources.finished_buckets.len() as u64,
+                resources.errors.len() as u64,
+            );
+            if resources.errors.is_empty() {
+                simrt::invariant(
+                    resources.finished_buckets.len() == MERGE_STRING_BUCKETS,
+                    "C40: not every bucket finished",
+                );
+                simrt::invariant(
+                    resources.unprocessed.is_empty(),
+                    "C40: input groups left unprocessed",
+                );
+                simrt::invariant(
+                    reuse_pool.available.load(Ordering::Relaxed) == reuse_pool.capacity,
+                    "C40: reuse pool reservations not balanced",
+                );
+            }
+        }
         // Check if we got any errors. We only look at the first error.
         if let Some(error) = resources.errors.pop() {
             return Err(error);
@@ -569,6 +592,11 @@ fn try_spawn_input_processing<'scope>(
         };
 
         scope.spawn(|scope| {
+            #[cfg(wild_verif)]
+            {
+                simrt::sched_point("sm_pop_group");
+                simrt::event("sm_input_task", resources.unprocessed.len() as u64, 0, 0);
+            }
             if let Some(input_section) = resources.unprocessed.pop()
                 && let Err(error) =
                     process_input_section_group(resources, input_section, scope, &mut reservation)
@@ -750,10 +778,19 @@ impl ReusePool {
     }
 
     fn return_strings_to_merge(&self, strings_to_merge: Vec<StringToMerge<'_, '_>>) {
+        #[cfg(wild_verif)]
+        simrt::sched_point("sm_return_vec");
         let r = self.string_vecs.push(reuse_vec(strings_to_merge));
         assert!(r.is_ok());
 
         self.available.fetch_add(1, Ordering::Relaxed);
+        #[cfg(wild_verif)]
+        simrt::event(
+            "sm_return_vec",
+            self.available.load(Ordering::Relaxed) as u64,
+            self.capacity as u64,
+            0,
+        );
     }
 
     /// Attempt to reserve the specified number of Vecs. Fails if there isn't at least that many
@@ -761,9 +798,13 @@ impl ReusePool {
     fn try_reserve(&self, num_vecs: usize) -> Result<PoolReservation, ()> {
         let available = self.available.load(Ordering::Relaxed);
         if available < num_vecs {
+            #[cfg(wild_verif)]
+            simrt::event("sm_reserve_low", available as u64, self.capacity as u64, 0);
             return Err(());
         }
 
+        #[cfg(wild_verif)]
+        simrt::sched_point("sm_reserve_cas");
         if self
             .available
             .compare_exchange(
@@ -774,8 +815,17 @@ impl ReusePool {
             )
             .is_err()
         {
+            #[cfg(wild_verif)]
+            simrt::event("sm_reserve_cas_lost", available as u64, self.capacity as u64, 0);
             return Err(());
         }
+        #[cfg(wild_verif)]
+        simrt::event(
+            "sm_reserve_ok",
+            (available - num_vecs) as u64,
+            self.capacity as u64,
+            0,
+        );
 
         Ok(PoolReservation {
             remaining: num_vecs,
@@ -787,8 +837,17 @@ impl ReusePool {
         if reservation.remaining == 0 {
             return;
         }
+        #[cfg(wild_verif)]
+        simrt::sched_point("sm_unreserve");
         self.available
             .fetch_add(reservation.remaining, Ordering::Relaxed);
+        #[cfg(wild_verif)]
+        simrt::event(
+            "sm_unreserve",
+            self.available.load(Ordering::Relaxed) as u64,
+            self.capacity as u64,
+            reservation.remaining as u64,
+        );
     }
 }
 
@@ -816,6 +875,8 @@ fn process_input_section_group<'data, 'offsets, 'scope>(
     reservation: &mut PoolReservation,
 ) -> Result {
     verbose_timing_phase!("Split and hash");
+    #[cfg(wild_verif)]
+    simrt::event("sm_group_start", group_in.index as u64, 0, 0);
 
     let mut buckets: [Vec<StringToMerge<'data, 'offsets>>; MERGE_STRING_BUCKETS] = [();
         MERGE_STRING_BUCKETS]
@@ -834,8 +895,21 @@ fn process_input_section_group<'data, 'offsets, 'scope>(
     resources.finished_shards[group_in.index].store(Some(group_in.offsets_shard));
 
     for (i, bucket_out) in buckets.iter_mut().enumerate() {
+        #[cfg(wild_verif)]
+        simrt::sched_point("sm_slot_put");
         let prev_slot =
             resources.swap_strings_slot(group_in.index, i, StringsSlot::Strings(take(bucket_out)));
+        #[cfg(wild_verif)]
+        simrt::event(
+            "sm_slot_put",
+            group_in.index as u64,
+            i as u64,
+            match &prev_slot {
+                StringsSlot::Empty => 0,
+                StringsSlot::WaitingForStrings(_) => 1,
+                StringsSlot::Strings(_) => 2,
+            },
+        );
         if let StringsSlot::WaitingForStrings(bucket) = prev_slot {
             scope.spawn(|scope| {
                 if let Err(error) = work_with_bucket(resources, bucket, scope) {
@@ -858,7 +932,16 @@ fn work_with_bucket<'data, 'scope>(
 
     let mut overflowed_offsets = resources.overflowed_offsets.get_or_default().borrow_mut();
 
+    #[cfg(wild_verif)]
+    simrt::event(
+        "sm_bucket_resume",
+        bucket.index as u64,
+        bucket.next_input_group_index as u64,
+        0,
+    );
     while bucket.next_input_group_index < resources.num_input_groups {
+        #[cfg(wild_verif)]
+        simrt::sched_point("sm_slot_take");
         let mut strings_to_merge = {
             let group_index = bucket.next_input_group_index;
 
@@ -869,9 +952,18 @@ fn work_with_bucket<'data, 'scope>(
 
             let slot = replace(&mut *lock, StringsSlot::Empty);
             let StringsSlot::Strings(strings) = slot else {
+                #[cfg(wild_verif)]
+                simrt::event(
+                    "sm_bucket_park",
+                    group_index as u64,
+                    bucket.index as u64,
+                    u64::from(matches!(slot, StringsSlot::Empty)),
+                );
                 *lock = StringsSlot::WaitingForStrings(bucket);
                 return Ok(());
             };
+            #[cfg(wild_verif)]
+            simrt::event("sm_slot_take", group_index as u64, bucket.index as u64, 0);
 
             strings
         };
@@ -889,6 +981,13 @@ fn work_with_bucket<'data, 'scope>(
     }
 
     // This bucket has now processed all input sections, so it's done.
+    #[cfg(wild_verif)]
+    simrt::event(
+        "sm_bucket_done",
+        bucket.index as u64,
+        bucket.next_input_group_index as u64,
+        0,
+    );
     let _ = resources.finished_buckets.push(bucket);
     Ok(())
 }
